@@ -67,8 +67,8 @@ def run_checks(repo):
     return out, errors
 
 
-def verify(pid, n, note=''):
-    src = f'/tmp/wt/{pid}'
+def verify(pid, n, note='', src_root='/tmp/wt', tag=''):
+    src = f'{src_root}/{pid}'
     patch = f'{src}/mut_{pid}_{n}.diff'
     demos = glob.glob(f'{src}/demo_{pid}_{n}.*')
     if not os.path.exists(patch) or not demos:
@@ -119,7 +119,8 @@ def verify(pid, n, note=''):
             'tests_passed', 'baseline_tests_missing', 'detected_by',
             'analysis_errors') if k in meta}, indent=1))
         if ok:
-            dst = os.path.join(HERE, 'seeded', f'{pid}-{n}')
+            dst = os.path.join(HERE, 'seeded',
+                               f'{pid}-{tag}{n}' if tag else f'{pid}-{n}')
             os.makedirs(dst, exist_ok=True)
             shutil.copy(patch, os.path.join(dst, 'patch.diff'))
             shutil.copy(demo, os.path.join(dst, dname))
@@ -180,6 +181,12 @@ if __name__ == '__main__':
         note = ''
         if '--note' in sys.argv:
             note = sys.argv[sys.argv.index('--note') + 1]
-        sys.exit(verify(sys.argv[2], sys.argv[3], note))
+        src_root = '/tmp/wt'
+        tag = ''
+        if '--src' in sys.argv:
+            src_root = sys.argv[sys.argv.index('--src') + 1]
+        if '--tag' in sys.argv:
+            tag = sys.argv[sys.argv.index('--tag') + 1]
+        sys.exit(verify(sys.argv[2], sys.argv[3], note, src_root, tag))
     elif sys.argv[1] == 'recheck':
         recheck()
